@@ -243,7 +243,7 @@ PROPS = {
               dict(comp="redisttl", driver="monitors", decisive=lambda d: d["op"].startswith("mon C02"))],
         rule="cases = concurrent histories: 2-4 free-running threads x 2-5 operations over keys {a (75%), b} drawn from {Create, Get, Put, CasByVersion (with the version the thread saw last, or a never-issued one), Delete, GetMany with a repeated key, PutMany}, with staggered starts; in-memory: every operation's critical section is stamped by the instrumented lock and the section order is the linearization candidate; Redis (miniredis): a witness order is searched by the harness, plus 6 forced WATCH/EXEC races (a go-redis hook stops a CAS between its GET and its EXEC while another client writes); every history is emitted in witness order with invocation/response stamps and RE-VALIDATED by the Lean driver against Kv.Spec (real-time order + legality); non-trivial = two operations on one key overlapped in real time and one was a write; distinct by hash of the witness-ordered history. Redis command level (component rediscmd): 2-4 clients x 1-4 operations; a go-redis hook parks EVERY Redis command (SETNX, GET, MGET, SET, MSET, DEL, WATCH, MULTI/SET/EXEC) of every client, the scheduler releases one at a time (random choices plus 5 directed schedules: Create's SETNX/GET/SETNX retry, CAS overtaken between GET and EXEC by Put / Delete / Delete+Create, two CAS on one version); every command with its reply and every result is replayed through RedisConc.step by the Lean driver; non-trivial = an operation was invoked while another client was in the middle of its commands",
         assumptions=["WaitForVersionChange is excluded here (C07)", "no expiries in the concurrent runs (expiry is C06)", "Redis: each single command is atomic and EXEC after WATCH fails iff the key changed (miniredis / Redis semantics)"],
-        trusted=["modelled, not verified: sync.Mutex (a critical section is atomic and lies between the call's invocation and response), go-redis, miniredis", "skeleton fact regenerated from inmem.go: every exported method except WaitForVersionChange is `s.lock.Lock(); defer s.lock.Unlock()`",
+        trusted=["modelled, not verified: sync.Mutex (a critical section is atomic and lies between the call's invocation and response), go-redis (one command = one atomic server step; SET with PX/EX and NX as sent; WATCH/MULTI/EXEC), miniredis (TTLs counted down by FastForward in lock-step with the client's virtual clock; a key is gone when its TTL reaches 0; SETNX / EXEC semantics) — the command-level replay compares every reply, TTL and stored expiry with the Lean server model, so a divergence of these shows as a trace mismatch", "the concurrent Redis model keeps its clock still inside TTL windows and between a CAS's GET and EXEC (tickBlocked): real latency there is not modelled", "skeleton fact regenerated from inmem.go: every exported method except WaitForVersionChange is `s.lock.Lock(); defer s.lock.Unlock()`",
                  "the witness search (Go transcription of the contract) is untrusted: the Lean driver validates every witness"],
         explanation="LinThm.order_is_sequential / order_respects_real_time (any object whose operations take effect in one atomic step is linearizable in step order) + C03 refinements + C02 contract facts for all histories (fresh_versions, cas_same_version_at_most_once, racing_creators_one_winner, loser_changes_nothing). For Redis: C02Redis.simulates / linearizable — the command-level concurrent model of redis.go (any number of clients, any interleaving of their commands, unboundedly many lost WATCH/EXEC races and Create retries) is a run of the atomic-step system over the sequential Redis client model of C03 (Kv.Redis: server keys under rKey with TTL deadlines and the 1 ms clamp; a tick is an operation of a clock thread), hence linearizable with that model's results for ALL expiries and keys; linearizable_to_contract: where the linearized history satisfies C03's RedisOK the results are the contract's (Kv.Spec); past_expiry_visible_until_next_ms, boundary_instant, aliasing_keys_share_a_record; exec_sees_what_get_saw (the WATCH invariant), lin_once, ret_is_lin_result; putmany_loop_entry / putmany_loop_is_puts / putmany_loop_run (a PutMany with an expiring record is a sequence of complete Puts, one per record, in order, under ANY interleaving: per-key effects), tick_only_outside_ttl_windows, expired_record_invisible_to_all_clients; the model is tied to redis.go + go-redis + miniredis by the command-level trace replay; free-running histories additionally get per-history Lean-validated witnesses",
     ),
@@ -259,7 +259,7 @@ PROPS = {
                    decisive=lambda d: d["op"].startswith("mon C07") or d["op"].startswith("ret ") or d["op"].startswith("poll ") or d["op"].startswith("wake "))],
         rule="cases = scripts on the REAL in-memory storage with 1..3 waiter goroutines on 1..2 keys: a prefix of writes (some with a 12 ms expiry), waiters started with the current / a stale / a never-issued version, then 3..9 actions from {start waiter, cancel waiter i, Put, Put with expiry, Create, CasByVersion with the current or a stale version, Delete, let the record expire}; after each action the harness waits until every waiter has returned or is parked in its select (goroutine-stack inspection); every critical section of inmem.go (announced by the instrumented lock, attributed to its goroutine, with the waiter table as seen under the lock) becomes a trace event and the Lean driver replays the trace through Waiters.Exec, comparing the waiter table after every section and every waiter's verdict; leftover waiters are cancelled at the end and the table must be empty; non-trivial = a mutation or cancellation hit a key on which waiters were parked; distinct by hash of the event list. Redis backend (component rediswait): 1..3 waiter goroutines call the REAL polling WaitForVersionChange against miniredis; a go-redis hook parks every GET of a waiter; the scheduler interleaves complete writer operations (Put / Create / CasByVersion current or stale / Delete, some with expiries), even clock ticks (odd expiries), cancellations and the release of one parked GET at a time (11 directed scripts + 150 (2000) random ones of 8..30 actions; the sleep between two polls of an unchanged record must stay below 500 ms); every reply and verdict is replayed through Model/RedisWait by the Lean driver; a free-running phase checks in real time that an unchanged record keeps the waiter blocked (1.2 s) and that a Put / Delete / cancellation then ends the wait within 500 ms with the right verdict",
         assumptions=["Redis backend: the length of a sleep between two polls (2..64 ms in the code) is not modelled — the theorem is 'returns at the FIRST poll after the change'; real-time promptness is sampled by the free-running phase", "promptness is measured by the settle deadline (10 s), not proved"],
-        trusted=["modelled, not verified: Go select / channel close semantics, sync.Mutex; the textual instrumenter announces every lock/unlock site of the CURRENT inmem.go with its function name and ordinal (WaitForVersionChange#1 = check, #2 = ctx.Done path, #3 = expiry path)", "C07Exec.handle_sound / replay_reach: every accepted trace is a Waiters.Step execution"],
+        trusted=["modelled, not verified: Go select / channel close semantics, sync.Mutex; the textual instrumenter announces every lock/unlock site of the CURRENT inmem.go with its function name and ordinal (WaitForVersionChange#1 = check, #2 = ctx.Done path, #3 = expiry path)", "Redis waiter: go-redis refuses a GET whose context is done without reaching the server (observed and replayed as `get ctx`); the sleep between polls is real time (2..64 ms in the code) and only bounded, not modelled", "C07Exec.handle_sound / replay_reach: every accepted trace is a Waiters.Step execution"],
         explanation="C07.return_sound, no_lost_wakeup, table_exact, no_bookkeeping_left, cancel_isolated, wake_enabled for any number of waiters/keys/writers and every interleaving of the critical sections (in-memory backend); C07Redis (polling waiter of kvs/redis over the timed contract, any number of waiters, arbitrary writers, ticks, cancellations): verdict_sound / poll_complete (nil only on a visible other version, ErrNotExist only on absence, the context's error only with a done context), sleeping_means_unchanged, change_is_permanent (versions are never reused, expiry only removes: once a return condition holds it holds for ever), returns_at_first_poll_after_change, cancelled_returns, waiters_read_only / cancel_isolated / server_oblivious_to_waiters (no bookkeeping exists: the server's state equals that of the run without any waiter event)",
     ),
     "C09": dict(
